@@ -192,3 +192,52 @@ func init() {
 			Old: "b = append(b, \"~1\"...)", New: "b = append(b, \"~0\"...)", Rule: "PTR-1"},
 	)
 }
+
+func init() {
+	addMutants(
+		// ---- C08/C02/C01: namespaces
+		Mutant{ID: "ns1-struct-skips-insertunquoted", Props: []string{"C08"}, File: "arshal_default.go", Func: "makeStructArshaler",
+			Old: "if !uo.Flags.Get(jsonflags.AllowDuplicateNames) && !xd.Namespaces.Last().InsertUnquoted(name) {", New: "if !uo.Flags.Get(jsonflags.AllowDuplicateNames) && fields.embeddedFallback != nil && !xd.Namespaces.Last().InsertUnquoted(name) {", Rule: "NS-1"},
+		Mutant{ID: "ns1-dup-error-under-other-flag", Props: []string{"C08"}, File: "arshal_default.go", Func: "makeStructArshaler",
+			Old: "if !uo.Flags.Get(jsonflags.AllowDuplicateNames) && !seenIdxs.insert(uint(f.id)) {", New: "if !uo.Flags.Get(jsonflags.AllowDuplicateNames) && !uo.Flags.Get(jsonflags.MatchCaseInsensitiveNames) && !seenIdxs.insert(uint(f.id)) {", Rule: "NS-1"},
+		Mutant{ID: "ns2-map-drops-nondefault", Props: []string{"C08", "C02"}, File: "arshal_default.go", Func: "makeMapArshaler",
+			Old: "if !nonDefaultKey && mapKeyWithUniqueRepresentation(k.Kind(), mo.Flags.Get(jsonflags.AllowInvalidUTF8)) {", New: "if mapKeyWithUniqueRepresentation(k.Kind(), mo.Flags.Get(jsonflags.AllowInvalidUTF8)) {", Rule: "NS-2"},
+		Mutant{ID: "ns2-map-nondefault-overwritten", Props: []string{"C08", "C02"}, File: "arshal_default.go", Func: "makeMapArshaler",
+			Old: "\t\t\t\tnonDefaultKey = nonDefaultKey || ok\n\t\t\t}\n\t\t\tk := newAddressableValue(t.Key())\n\t\t\tv := newAddressableValue(t.Elem())\n\n\t\t\t// A Go map", New: "\t\t\t\tnonDefaultKey = ok\n\t\t\t}\n\t\t\tk := newAddressableValue(t.Key())\n\t\t\tv := newAddressableValue(t.Elem())\n\n\t\t\t// A Go map", Rule: "NS-2"},
+		Mutant{ID: "ns2-float-keys-unique", Props: []string{"C08", "C02"}, File: "arshal_default.go", Func: "mapKeyWithUniqueRepresentation",
+			Old: "reflect.Uint, reflect.Uint8, reflect.Uint16, reflect.Uint32, reflect.Uint64, reflect.Uintptr:", New: "reflect.Uint, reflect.Uint8, reflect.Uint16, reflect.Uint32, reflect.Uint64, reflect.Uintptr, reflect.Float64:", Rule: "NS-2"},
+		Mutant{ID: "ns2-string-keys-ignore-utf8", Props: []string{"C08", "C02"}, File: "arshal_default.go", Func: "makeMapArshaler",
+			Old: "mapKeyWithUniqueRepresentation(k.Kind(), mo.Flags.Get(jsonflags.AllowInvalidUTF8))", New: "mapKeyWithUniqueRepresentation(k.Kind(), false)", Rule: "NS-2"},
+		Mutant{ID: "ns2-struct-checker-when-fallback-only", Props: []string{"C08", "C02"}, File: "arshal_default.go", Func: "makeStructArshaler",
+			Old: "\t\t\tif !mo.Flags.Get(jsonflags.AllowDuplicateNames) && fields.embeddedFallback != nil {\n\t\t\t\tseenIdxs.insert(uint(f.id))\n\t\t\t}\n", New: "", Rule: "NS-2"},
+		Mutant{ID: "ns2-anymap-always-disables", Props: []string{"C08", "C02"}, File: "arshal_any.go", Func: "marshalObjectAny",
+			Old: "\tif !mo.Flags.Get(jsonflags.AllowInvalidUTF8) {\n\t\txe.Tokens.Last.DisableNamespace()\n\t}", New: "\txe.Tokens.Last.DisableNamespace()", Rule: "NS-2"},
+		Mutant{ID: "ns3-skip-invalidate", Props: []string{"C08"}, File: "arshal.go", Func: "unmarshalDecode",
+			Old: "\t\tif !uo.Flags.Get(jsonflags.AllowDuplicateNames) {\n\t\t\texport.Decoder(in).Tokens.InvalidateDisabledNamespaces()\n\t\t}\n", New: "", Rule: "NS-3"},
+		Mutant{ID: "mapcache-removeLast-forgets-map", Props: []string{"C08", "C01"}, File: "jsontext/state.go", Func: "objectNamespace.removeLast",
+			Old: "\tif ns.mapNames != nil {\n\t\tdelete(ns.mapNames, string(ns.lastUnquoted()))\n\t}\n", New: "", Rule: "MAPCACHE-1"},
+	)
+}
+
+func init() {
+	addMutants(
+		// ---- C19: OPT-4..6
+		Mutant{ID: "opt4-join-before-defer", Props: []string{"C19"}, File: "arshal.go", Func: "MarshalEncode",
+			Old: "\t\toptsOriginal := xe.Struct\n\t\tdefer func() { xe.Struct = optsOriginal }()\n\t\txe.Struct.Join(opts...)\n", New: "\t\toptsOriginal := xe.Struct\n\t\txe.Struct.Join(opts...)\n", Rule: "OPT-4"},
+		Mutant{ID: "opt4-restore-only-on-success", Props: []string{"C19"}, File: "arshal.go", Func: "UnmarshalDecode",
+			Old: "\t\tdefer func() { xd.Struct = optsOriginal }()\n", New: "\t\tdefer func() {\n\t\t\tif err == nil {\n\t\t\t\txd.Struct.Flags = optsOriginal.Flags\n\t\t\t}\n\t\t}()\n", Rule: "OPT-4"},
+		Mutant{ID: "opt5-revert-F4", Props: []string{"C19"}, File: "arshal_default.go", Func: "makeStructArshaler",
+			Old: "\t\t\t\tv := addressableValue{va.Field(f.index0), va.forcedAddr} // addressable if struct value is addressable\n\t\t\t\tif len(f.index) > 0 {\n\t\t\t\t\tv = v.fieldByIndex(f.index, true)",
+			New: "\t\t\t\tif f.string {\n\t\t\t\t\tuo.Flags.Set(jsonflags.StringTag | 1)\n\t\t\t\t}\n\t\t\t\tv := addressableValue{va.Field(f.index0), va.forcedAddr} // addressable if struct value is addressable\n\t\t\t\tif len(f.index) > 0 {\n\t\t\t\t\tv = v.fieldByIndex(f.index, true)", Rule: "OPT-5"},
+		Mutant{ID: "opt5-marshal-restore-after-error-check", Props: []string{"C19"}, File: "arshal_default.go", Func: "makeStructArshaler",
+			Old: "\t\t\terr := marshal(enc, v, mo)\n\t\t\tmo.Flags = flagsOriginal\n\t\t\tmo.Format = \"\"\n\t\t\tif err != nil {\n\t\t\t\treturn err\n\t\t\t}\n", New: "\t\t\terr := marshal(enc, v, mo)\n\t\t\tif err != nil {\n\t\t\t\treturn err\n\t\t\t}\n\t\t\tmo.Flags = flagsOriginal\n\t\t\tmo.Format = \"\"\n", Rule: "OPT-5"},
+		Mutant{ID: "opt5-format-not-cleared", Props: []string{"C19"}, File: "arshal_default.go", Func: "makeStructArshaler",
+			Old: "\t\t\tmo.Flags = flagsOriginal\n\t\t\tmo.Format = \"\"\n", New: "\t\t\tmo.Flags = flagsOriginal\n", Rule: "OPT-5"},
+		Mutant{ID: "opt5-readtoken-array-keeps-tags", Props: []string{"C19"}, File: "jsontext/decode.go", Func: "decoderState.ReadToken",
+			Old: "\t\tif err = d.Tokens.pushArray(); err != nil {\n\t\t\treturn Token{}, wrapSyntacticError(d, err, pos, +1)\n\t\t}\n\t\td.Flags.Clear(jsonflags.TagFlags) // tags only apply to current depth\n", New: "\t\tif err = d.Tokens.pushArray(); err != nil {\n\t\t\treturn Token{}, wrapSyntacticError(d, err, pos, +1)\n\t\t}\n", Rule: "OPT-5"},
+		Mutant{ID: "opt6-decoder-reads-encode-flag", Props: []string{"C19"}, File: "jsontext/decode.go", Func: "decoderState.consumeString",
+			Old: "!d.Flags.Get(jsonflags.AllowInvalidUTF8))", New: "!d.Flags.Get(jsonflags.AllowInvalidUTF8|jsonflags.PreserveRawStrings))", Rule: "OPT-6"},
+		Mutant{ID: "opt6-unmarshal-reads-marshal-flag", Props: []string{"C19"}, File: "arshal_default.go", Func: "makeSliceArshaler",
+			Old: "\t\tcase 'n':\n\t\t\tva.SetZero()\n\t\t\treturn nil\n\t\tcase '[':", New: "\t\tcase 'n':\n\t\t\tif !uo.Flags.Get(jsonflags.FormatNilSliceAsNull) || true {\n\t\t\t\tva.SetZero()\n\t\t\t}\n\t\t\treturn nil\n\t\tcase '[':", Rule: "OPT-6"},
+	)
+}
